@@ -302,3 +302,35 @@ func sliceLenOf(v reflect.Value) int { return sliceLen(v) }
 //@ requires m != nil
 //@ modifies everything
 //@ at return#1 assert key-has-length: p.len == sliceLenOf(v)
+
+// ---------------------------------------------------------------- integer range checks (C10)
+//
+// The int/uint unmarshalers store a parsed literal only if ParseUint accepted it
+// (ok: exact value, no overflow past 2^64) and the value lies in the range of the
+// destination kind: |n| <= 2^(bits-1) for a negative, n <= 2^(bits-1)-1 for a
+// non-negative signed value, n < 2^bits for an unsigned one (bits is the captured
+// bit size of the type, assumed to be 8, 16, 32 or 64; 1<<64 wraps to 0 and 0-1 to MaxUint64 in the code - the
+// assertion states the range without relying on that).
+
+//@ extern reflect.(Value).SetInt(x int64)
+//@ trusted reflect setter: writes the destination value only (not the coders)
+
+//@ extern reflect.(Value).SetUint(x uint64)
+//@ trusted reflect setter: writes the destination value only (not the coders)
+
+//@ func makeIntArshaler$2
+//@ property C10
+//@ assertions-only reflection closure: only the range check before the store is decided
+//@ requires dec != nil && uo != nil
+//@ modifies everything
+//@ at call xd.ReadValue#0 assume-before bit-size: bits == 8 || bits == 16 || bits == 32 || bits == 64
+//@ at call va.SetInt#3 assert-before negative-in-range: ok && neg && n <= uint64(1)<<(uint(bits)-1)
+//@ at call va.SetInt#4 assert-before positive-in-range: ok && !neg && n <= uint64(1)<<(uint(bits)-1)-1
+
+//@ func makeUintArshaler$2
+//@ property C10
+//@ assertions-only reflection closure: only the range check before the store is decided
+//@ requires dec != nil && uo != nil
+//@ modifies everything
+//@ at call xd.ReadValue#0 assume-before bit-size: bits == 8 || bits == 16 || bits == 32 || bits == 64
+//@ at call va.SetUint#3 assert-before in-range: ok && (bits == 64 || n <= uint64(1)<<uint(bits)-1)
